@@ -37,7 +37,7 @@ func ruleJSONSliceAppenders(r *Run, p *Prog) {
 		name := m.Name()
 		n++
 		// token sequence along every path: constant bytes and element calls
-		paths, complete := enumPaths(m, 2, 4000)
+		paths, complete := enumPaths(m, 3, 20000)
 		if !complete {
 			r.Ob("JSONARR", FnName(m)+"/paths", p.Pos(m.Pos()), false, true, "cannot enumerate paths")
 			continue
@@ -48,6 +48,9 @@ func ruleJSONSliceAppenders(r *Run, p *Prog) {
 		allPrims := map[string]bool{}
 		for _, pa := range paths {
 			if _, isRet := pa.Exit.(*ssa.Return); !isRet {
+				continue
+			}
+			if pa.InfeasibleByEval() {
 				continue
 			}
 			elemPrims := map[string]bool{}
